@@ -1,12 +1,14 @@
 (* C07 — Rejected requests leave the account untouched.  Property theorems only.
    Proved: every rejection that happens before anything is mutated (loans, repayments, cancellations of unknown or
    closed orders, order requests without auto-borrow: validation, configuration, hold) leaves the complete model
-   state identical.  NOT proved here (C07_partial): rejections of auto-borrow order requests, where loans were
-   already created and are rolled back (the state is restored up to closed loans left in the loan list), and
-   cancellations of open orders (which never fail on reachable states); both are covered by the correspondence check
-   and the monitor only. *)
+   state identical.  Rejections of auto-borrow order requests, where loans were already created and are rolled
+   back: in every reachable state balances, holds, borrowed amounts, orders, reservations and the set of open loans
+   are restored exactly (the cancelled loans stay in the list, closed); the roll-back cannot itself fail, and once the
+   borrowing succeeded the reservation cannot fail either (AtomicProofs.v).  C07_partial: a cancellation of an open
+   order that fails while releasing its holds (never observed; covered by the correspondence check and the monitor). *)
 From Coq Require Import ZArith QArith List.
-From Basana Require Import Num.DecQ Exchange.Model Exchange.AcctProofs Exchange.StepProofs Exchange.OpProofs.
+From Basana Require Import Num.DecQ Exchange.Model Exchange.AcctProofs Exchange.StepProofs Exchange.OpProofs
+     Exchange.HoldProofs Exchange.AtomicProofs.
 Import ListNotations.
 Open Scope Q_scope.
 
@@ -45,8 +47,45 @@ Proof. exact step_rejected_unchanged. Qed.
 Print Assumptions C07_atomic_partial.
 
 (* non-vacuity: a request that is really rejected *)
+(* an order request with auto-borrow that is rejected -- validation, lending conditions, margin requirement, missing
+   price, whatever -- leaves no loan behind and changes nothing a user can observe, in every reachable state *)
+Theorem C07_rejected_autoborrow_order_leaves_nothing : forall c initial ops k op p amount ar s' e,
+  NoDup (map fst initial) -> (forall kv, In kv initial -> 0 <= snd kv) -> fst p <> snd p ->
+  let s := run c (init_st initial) ops in
+  create_order c s k op p amount true ar = Fail s' e -> obs_same s s'.
+Proof. exact rejected_autoborrow_reachable. Qed.
+Print Assumptions C07_rejected_autoborrow_order_leaves_nothing.
+
+(* the roll-back itself: cancelling a loan that was just granted always succeeds and restores the account *)
+Theorem C07_cancel_after_create_restores : forall c s x a s1 id,
+  create_loan c s x a = Done s1 id -> rules_pass (s_acct s) -> vnodup (bor (s_acct s)) ->
+  exists s2 u, cancel_loan c s1 id = Done s2 u /\ obs_same s s2 /\ rules_pass (s_acct s2) /\ vnodup (bor (s_acct s2)).
+Proof. exact create_then_cancel. Qed.
+Print Assumptions C07_cancel_after_create_restores.
+
+(* once the borrowing succeeded the reservation is covered exactly: it cannot be refused *)
+Theorem C07_reservation_after_borrowing_succeeds : forall c s req lids sb p,
+  borrow_loop c s (shorts_of (s_acct s) req) [] = Done sb lids ->
+  rules_pass (s_acct s) -> vnodup (bor (s_acct s)) -> req_form p req -> fst p <> snd p ->
+  exists s', upd_acct c sb [] req [] = Done s' tt.
+Proof. exact hold_after_borrow. Qed.
+Print Assumptions C07_reservation_after_borrowing_succeeds.
+
 Example C07_nonvacuous :
   let c := mkCfg [(1%positive, 2%nat); (2%positive, 2%nat)] [] None NoFee InfLiq NoLoans in
   let s := run c (init_st [(2%positive, 10)]) [OBar (1%positive, 2%positive) 60%Z (mkBar 100 100 100 100 10)] in
   snd (step c s (OCreate (KLimit 100) Buy (1%positive, 2%positive) 2 false false)) = RErr ENotEnough.
 Proof. vm_compute. reflexivity. Qed.
+
+(* non-vacuity: a rejected auto-borrow sell that had already borrowed the base symbol when the second loan (for the
+   minimum fee, in a symbol without lending conditions... here: margin) was refused *)
+Example C07_autoborrow_nonvacuous :
+  let k := mkCond 2%positive 10 0%Z 0 (9 # 10) in
+  let c := mkCfg [(1%positive, 2%nat); (2%positive, 2%nat)] [] None NoFee InfLiq (Margin 2%positive (Some k) []) in
+  let p := (1%positive, 2%positive) in
+  let s := run c (init_st [(2%positive, 100)]) [OBar p 60%Z (mkBar 100 100 100 100 10)] in
+  match create_order c s KMarket Buy p 50 true false with
+  | Fail s' e => filter l_open (s_loans s') = [] /\ Qeq_bool (vget (bor (s_acct s')) 2%positive) 0 = true
+  | Done _ _ => False
+  end.
+Proof. vm_compute. split; reflexivity. Qed.
